@@ -129,20 +129,28 @@ inductive ReachWL (p : Params) : State → Prop
 inductive Cmd where
   | lock (i : Nat) | tryLock (i : Nat) | unlock (i : Nat)
   | lockAsync (i : Nat) | join (i : Nat)
+  | sleep (dt : Nat)      -- real time passes; waiters whose deadline passes give up
   | revoke (i : Nat)      -- the harness revokes the client's lease
   | observe (i : Nat)     -- wait one keepalive interval, then read the client's lock context
   deriving Repr
 
 inductive Res where
-  | acquired | locked | timeout | sessionExpired | unlocked | blocked | revoked | ctxLive | ctxCancelled | ctxNone | misuse
+  | acquired | locked | timeout | sessionExpired | unlocked | blocked | revoked | ctxLive | ctxCancelled | ctxNone | misuse | slept
   deriving Repr, DecidableEq
 
 def Res.str : Res → String
   | .acquired => "acquired" | .locked => "locked" | .timeout => "timeout" | .sessionExpired => "session-expired"
   | .unlocked => "unlocked" | .blocked => "blocked" | .revoked => "revoked" | .ctxLive => "ctx-live"
-  | .ctxCancelled => "ctx-session-done" | .ctxNone => "ctx-none" | .misuse => "misuse"
+  | .ctxCancelled => "ctx-session-done" | .ctxNone => "ctx-none" | .misuse => "misuse" | .slept => "slept"
 
 def noOlder (s : State) (i : Nat) : Bool := s.keys.all fun k => !(decide (k.2 < s.myRev i))
+
+/-- waiters (they all have a key in the queue) whose deadline has passed delete their key and fail -/
+def expireWaiters (s : State) : State :=
+  (s.keys.map (·.1)).foldl (fun st i =>
+    match st.phase i with
+    | .waiting dl => if dl ≤ st.wall then abandon st i else st
+    | _ => st) s
 
 def exec (ttl : Nat) (s : State) : Cmd → State × Res
   | .lock i =>
@@ -177,7 +185,9 @@ def exec (ttl : Nat) (s : State) : Cmd → State × Res
         (s1, match s1.phase i with | .holding => .acquired | _ => .sessionExpired)
       else (abandon { s with wall := max s.wall dl } i, .timeout)
     | .holding => (s, .acquired)
+    | .failed => (s, .timeout)
     | _ => (s, .misuse)
+  | .sleep dt => (expireWaiters { s with wall := s.wall + dt }, .slept)
   | .revoke i => if s.leaseAlive i then (loseLease s i, .revoked) else (s, .revoked)
   | .observe i =>
     -- one keepalive interval later the watcher has run
